@@ -361,12 +361,12 @@ class OscTcpInterface(OscInterface):
         self._run_thread = True
         while self._run_thread:
             try:
-                data = self._socket.recv(4)
+                data = self._recv_exactly(4)
                 if not data:
                     self._is_connected = False
                     break
                 size = struct.unpack('>i', data)[0]
-                data = self._socket.recv(size)
+                data = self._recv_exactly(size)
                 if not data:
                     self._is_connected = False
                     break
@@ -376,6 +376,16 @@ class OscTcpInterface(OscInterface):
                     _logger.error(f'{str(self)}: {str(e)}')
                 self._is_connected = False
                 break
+
+    def _recv_exactly(self, size):
+        # TCP is a byte stream, recv may return less than requested.
+        data = b''
+        while len(data) < size:
+            chunk = self._socket.recv(size - len(data))
+            if not chunk:
+                return b''
+            data += chunk
+        return data
 
     def try_connect(self, target, timeout=3, on_complete=None, on_failure=None):
         def tcp_connect_func():
